@@ -15,7 +15,7 @@ from ..core import rule, AnalysisError
 from ..engine import flow
 from ..engine import pattern as P
 from ..engine.facts import dotted, const, src, walk_func, str_value, enclosing_stmt, ancestors
-from .common import calls, raise_names, contains, pn, access_paths, assigned_from, branch_paths
+from .common import calls, raise_names, contains, pn, access_paths, assigned_from, branch_paths, keyed_values, resolve, resolve_deep
 from .common import _fold_not as _fold
 from . import c12  # line-split-agreement is registered for C11 there
 from . import c01  # line-count (line and column bookkeeping of match_reg) is registered for C11 there
@@ -33,11 +33,18 @@ def _has_kwargs_splat(call, allowed_roots=("self", "node", "kwargs")):
             t = src(k.value)
             if "exception_kwargs" in t or t == "kwargs":
                 return t
-            if isinstance(k.value, ast.Dict):
-                if any(x is None and "exception_kwargs" in src(v) for x, v in zip(k.value.keys, k.value.values)):
-                    return src(k.value)
-            if isinstance(k.value, ast.Call) and "_adjust_lineno" in src(k.value.func):
-                return src(k.value)
+            kv = k.value
+            fn_ = getattr(call, "_func", None)
+            if isinstance(kv, ast.Name) and fn_ is not None:
+                # a local that names the mapping
+                kv = resolve(fn_, kv)
+                if "exception_kwargs" in src(kv) and not isinstance(kv, ast.Call):
+                    return src(kv)
+            if isinstance(kv, ast.Dict):
+                if any(x is None and "exception_kwargs" in src(v) for x, v in zip(kv.keys, kv.values)):
+                    return src(kv)
+            if isinstance(kv, ast.Call) and "_adjust_lineno" in src(kv.func):
+                return src(kv)
     names = {k.arg for k in call.keywords if k.arg}
     if {"source", "lineno", "pos", "filename"} <= names:
         return "explicit keywords"
@@ -201,22 +208,13 @@ def offset_algebra(ctx):
     ctx.check(P.has(pc, "$s = $c.lstrip()\n...\n$o += $c[:len($c) - len($s)].count('\\n')"), "code.strip-offset", db.where(pc), "leading blank lines stripped from a block are not added to the line offset", "offset += newlines stripped")
     ctx.check(P.has(pc, "$s = $c.lstrip()\n...\n$e = pyparser.parse($s, 'exec', lineno_offset=$o, **$k)"), "code.parse-args", db.where(pc), "PythonCode does not parse the stripped code with the offset", "parse(stripped, lineno_offset=...)")
     al = db.func("pyparser._adjust_lineno")
-    d = [x for x in walk_func(al) if isinstance(x, ast.Dict)]
-    val = None
-    for x in d:
-        for k, v in zip(x.keys, x.values):
-            if k is not None and const(k) == "lineno":
-                val = v
+    vals = keyed_values(al, "lineno")
+    val = vals[-1] if vals else None
     offp = pn(al, 1)
-    forms = ["$b + %s + $x - 1" % offp, "$b + %s + ($x - 1)" % offp, "$b + $x + %s - 1" % offp, "$b + $x - 1 + %s" % offp]
-    okf = False
-    for f_ in forms:
-        for _n, env_ in (P.find(val, f_) if val is not None else []):
-            b_, x_ = env_["b"][1], env_["x"][1]
-            if _n is val:
-                okb = (isinstance(b_, ast.Name) and P.has(al, "%s = $k.get('lineno')" % b_.id)) or P.matches(b_, "%s.get('lineno')" % pn(al, 2))
-                okx = (isinstance(x_, ast.Name) and P.has(al, "%s = getattr($e, 'lineno', None)" % x_.id)) or P.matches(x_, "getattr(%s, 'lineno', None)" % pn(al, 0))
-                okf = okb and okx
+    b_ = "%s.get('lineno')" % pn(al, 2)
+    x_ = "getattr(%s, 'lineno', None)" % pn(al, 0)
+    forms = [f_ % dict(b=b_, o=offp, x=x_) for f_ in ("%(b)s + %(o)s + %(x)s - 1", "%(b)s + %(o)s + (%(x)s - 1)", "%(b)s + %(x)s + %(o)s - 1", "%(b)s + %(x)s - 1 + %(o)s", "%(b)s + (%(o)s + %(x)s - 1)")]
+    okf = bool(vals) and all(any(P.matches(resolve_deep(al, v_), f_) for f_ in forms) for v_ in vals)
     val = src(val) if val is not None else None
     ctx.check(okf, "adjust.formula", db.where(al), "reported line is %s, expected base + offset + parsed - 1" % val, "base + offset + parsed - 1")
     pp = db.func("pyparser.parse")
